@@ -3,6 +3,7 @@ From Coq Require Import Lia.
 Require Import Rapid.Model.Base Rapid.Model.Syntax Rapid.Model.Monad Rapid.Model.Interp Rapid.Model.Engine Rapid.Model.Pexp Rapid.Model.Corr Rapid.Model.Shrink.
 Require Import Rapid.Proofs.Bracket Rapid.Proofs.BracketEnd.
 Require Import Rapid.Generated.GeomTable.
+Require Import Rapid.Proofs.Glue.
 Local Open Scope nat_scope.
 
 (* The discipline is the acceptor [run_ev] (Proofs/Bracket.v) over the event trace, one frame per T:
@@ -17,11 +18,7 @@ Theorem C10_bracket_discipline :
   forall geom LF lvl p x fs,
     run_ev (tr (w (checkOnce geom LF lvl p (start x)))) (mkF [] false false :: fs)
     = Some (frame_of (ts (post (checkOnce geom LF lvl p (start x)))) :: fs).
-Proof.
-  intros geom LF lvl p x fs.
-  assert (Hw : wfT (ts (start x))) by (intros H; discriminate).
-  exact (proj1 (br_checkOnce geom LF lvl p (start x) fs Hw)).
-Qed.
+Proof. exact C10_bracket_discipline_glue. Qed.
 Print Assumptions C10_bracket_discipline.
 
 (* ... and when the test case is over the T is empty: no cleanup left, context cancelled, not cleaning -
@@ -30,10 +27,7 @@ Theorem C10_ends_empty :
   forall geom LF lvl p x,
     res (checkOnce geom LF lvl p (start x)) <> Err XFuel ->
     frame_of (ts (post (checkOnce geom LF lvl p (start x)))) = mkF [] false false.
-Proof.
-  intros geom LF lvl p x H. destruct (checkOnce_ends_empty geom LF lvl p (start x) H) as [A [B C]].
-  unfold frame_of. rewrite A, B, C. reflexivity.
-Qed.
+Proof. exact C10_ends_empty_glue. Qed.
 Print Assumptions C10_ends_empty.
 
 (* the same for T.cleanup on any T (the inner T of a Custom attempt included) *)
@@ -41,7 +35,8 @@ Theorem C10_cleanup_empties :
   forall geom LF lvl s r,
     res (cleanup LF (exec geom LF lvl) s) = Ok r ->
     ts (post (cleanup LF (exec geom LF lvl) s))
-    = mkT (failed (ts (post (cleanup LF (exec geom LF lvl) s)))) [] false false.
+    = mkT (failed (ts (post (cleanup LF (exec geom LF lvl) s)))) [] false false
+          (skipreq (ts (post (cleanup LF (exec geom LF lvl) s)))).
 Proof. exact cleanup_end. Qed.
 Print Assumptions C10_cleanup_empties.
 
